@@ -67,6 +67,10 @@ def run(ck: Checker, prog: Program, tier: str):
     from . import c08
     with ck.borrow(c08, "C11.R1+"):
         ck.guard(c08._r2, ck, prog)
+        ck.guard(c08._members_private, ck, prog)
+    from . import c03
+    with ck.borrow(c03, "C11.R2+"):
+        ck.guard(c03._validation, ck, prog)
     # what is reported for an azimuthal result on file are the azimuthal object's own mean / std curves
     from . import c12
     with ck.borrow(c12, "C11.R2+"):
